@@ -1123,6 +1123,7 @@ func poolInputs(r *rand.Rand) (lazyproto.Def, [][]byte) {
 		mk(1, 1, 3, false), mk(5, 0, 5, true), mk(2, 2, 1, false), badNested,
 		// malformed: requested fields first, then a truncated tail (the decode fails after values were captured), and a bare truncated key
 		append(mk(3, 2, 1, false), 0x08, 0x80), {0x08},
+		{}, // the zero-length input: the valid encoding of an all-default message
 	}
 	return def, ins
 }
